@@ -204,6 +204,13 @@ def rounds(repo, rule):
         else:
             e = dict(env)
             e[var] = P.sym("r")
+            for s_ in lp.body:      # loop-body locals in statement order (e.g. `index = R_F // 2 + r`)
+                if isinstance(s_, ast.Assign) and len(s_.targets) == 1 and isinstance(s_.targets[0], ast.Name):
+                    v_ = poly_of(s_.value, e, strict=False)
+                    if v_ is not None:
+                        e[s_.targets[0].id] = v_
+                if subs[0] in list(ast.walk(s_)):
+                    break
             off = poly_of(subs[0].slice, e, strict=False)
             if off == want_off[idx] + P.sym("r"):
                 rule.ok(fi.loc(subs[0]), fi.fq, "group %d adds row %s" % (idx + 1, norm(subs[0].slice)))
@@ -342,6 +349,137 @@ def ggh(repo, rule):
             rule.violation(fi.loc(), fi.fq, norm(fi.node.body)[:120], "bit/coefficient pairing or reduction is wrong", "ggh/%s" % fn)
 
 
+def sponge_absorb(repo, rule):
+    """Sponge construction of poseidon_hash: each block is ADDED to the rate elements sponge[1:], the capacity element
+    sponge[0] is carried over unchanged into the permutation, the state is permuted once per block, the digest is read
+    from the rate part."""
+    fi = repo.fn(PH, "poseidon_hash")
+    loops = [s for s in fi.node.body if isinstance(s, ast.For)]
+    lp = None
+    for s in loops:
+        if any(isinstance(c, ast.Call) and norm(c.func) == "permute" for c in ast.walk(s)):
+            lp = s
+    if lp is None:
+        rule.violation(fi.loc(), fi.fq, "no loop calling permute()", "the sponge does not permute once per block", "sponge/loop")
+        return
+    pc = [c for c in ast.walk(lp) if isinstance(c, ast.Call) and norm(c.func) == "permute" and c.args]
+    sn = norm(pc[0].args[0]) if pc else "sponge"          # name of the state variable
+    blocks = {}          # local name -> text of the block slice
+    state_name = None
+    permuted = 0
+    absorbed = False
+    problems = []
+    for s in lp.body:
+        if isinstance(s, ast.Assign) and len(s.targets) == 1:
+            t, v = s.targets[0], s.value
+            # block slice: round_inputs = inputs[i*k:(i+1)*k]
+            if isinstance(t, ast.Name) and isinstance(v, ast.Subscript) and isinstance(v.slice, ast.Slice) and not (
+                    isinstance(v.value, ast.Name) and v.value.id == sn):
+                blocks[t.id] = norm(v)
+                continue
+            if isinstance(v, ast.Call) and norm(v.func) == "permute":
+                arg = norm(v.args[0]) if v.args else ""
+                if arg != sn or norm(t) != sn:
+                    problems.append((s, "the permutation is not applied to the whole state in place of it"))
+                permuted += 1
+                continue
+
+            def added(comp):
+                """[x + y for (x, y) in zip(sponge[1:], block)] (either order)"""
+                if not isinstance(comp, ast.ListComp) or len(comp.generators) != 1 or comp.generators[0].ifs:
+                    return False
+                g = comp.generators[0]
+                it = g.iter
+                if not (isinstance(it, ast.Call) and norm(it.func) == "zip" and len(it.args) == 2 and isinstance(g.target, ast.Tuple)
+                        and len(g.target.elts) == 2):
+                    return False
+                srcs = {norm(a) for a in it.args}
+                blk = [a for a in srcs if a != sn + "[1:]"]
+                if sn + "[1:]" not in srcs or len(blk) != 1 or not (blk[0] in blocks or "inputs[" in blk[0]):
+                    return False
+                x, y = norm(g.target.elts[0]), norm(g.target.elts[1])
+                return isinstance(comp.elt, ast.BinOp) and isinstance(comp.elt.op, ast.Add) and {norm(comp.elt.left), norm(comp.elt.right)} == {x, y}
+            if isinstance(t, ast.Subscript) and norm(t) == sn + "[1:]":
+                if added(v):
+                    absorbed = True
+                else:
+                    problems.append((s, "the rate part is not (old rate + block) element-wise"))
+                continue
+            if isinstance(t, ast.Name) and t.id == sn:
+                # whole-state rebuild: must be [sponge[0]] + [rate + block]  (or sponge[:1] + ...)
+                ok = False
+                if isinstance(v, ast.BinOp) and isinstance(v.op, ast.Add):
+                    head = norm(v.left)
+                    if head in ("[%s[0]]" % sn, "%s[:1]" % sn, "%s[0:1]" % sn, "list(%s[:1])" % sn) and added(v.right):
+                        ok = True
+                    elif added(v.right):
+                        problems.append((s, "the capacity element sponge[0] is replaced by `%s` before each permutation instead of "
+                                            "being carried over: from the second block on the state differs from the sponge "
+                                            "construction" % head))
+                        absorbed = True
+                        continue
+                if ok:
+                    absorbed = True
+                else:
+                    problems.append((s, "the state is rebuilt in a way that is not [capacity] + (rate + block)"))
+                continue
+            if isinstance(t, ast.Subscript) and norm(t.value) == sn:
+                problems.append((s, "an element of the state is overwritten during absorption"))
+    where = fi.loc(lp)
+    if problems:
+        s, msg = problems[0]
+        rule.violation(fi.loc(s), fi.fq, norm(s)[:120], msg, "sponge/absorb")
+    elif absorbed and permuted == 1:
+        rule.ok(where, fi.fq, "per block: sponge[1:] += block; sponge = permute(sponge)", "capacity element carried over")
+    else:
+        rule.violation(where, fi.fq, "absorbed=%s, permutations per block=%d" % (absorbed, permuted), "a block is not absorbed exactly "
+                       "once and followed by exactly one permutation", "sponge/shape")
+    rets = [n for n in fi.node.body if isinstance(n, ast.Return)]
+    if rets and norm(rets[-1].value) in ("%s[1:]" % sn, "%s[1:t]" % sn, "list(%s[1:])" % sn):
+        rule.ok(fi.loc(rets[-1]), fi.fq, "digest = sponge[1:]")
+    else:
+        rule.violation(fi.loc(), fi.fq, norm(rets[-1].value) if rets else "no return", "the digest is not the rate part of the final state",
+                       "sponge/digest")
+
+
+def prng_rejection(repo, rule):
+    """SHA512_prng is pure rejection sampling: every value it returns is a draw accepted by `val < PRIME` (no cap on the
+    number of draws, no folding of a rejected draw into the field): otherwise the coefficients differ from the published
+    generator for the indices that need more draws."""
+    from ..hints import paths_to
+    fi = repo.module(GG).functions.get("SHA512_prng")
+    if fi is None:
+        raise AnalysisError("SHA512_prng not found")
+    rets = [n for n in ast.walk(fi.node) if isinstance(n, ast.Return) and n.value is not None]
+    if not rets:
+        rule.violation(fi.loc(), fi.fq, "no return", "generator returns nothing", "prng/ret")
+        return
+    for r in rets:
+        rv = norm(r.value)
+        accepted = False
+        for p_ in parents(r):
+            if isinstance(p_, ast.If):
+                inbody = any(r is x for st in p_.body for x in ast.walk(st))
+                t = norm(p_.test).replace(" ", "")
+                if inbody and t in ("%s<PRIME" % rv, "PRIME>%s" % rv):
+                    accepted = True
+                if (not inbody) and t in ("%s>=PRIME" % rv, "PRIME<=%s" % rv, "not%s<PRIME" % rv):
+                    accepted = True
+        if accepted:
+            rule.ok(fi.loc(r), fi.fq, "return %s under `%s < PRIME`" % (rv, rv), "accepted draw")
+        else:
+            rule.violation(fi.loc(r), fi.fq, "return %s" % rv, "a value is returned that was not accepted by the rejection test "
+                           "`< PRIME`: the generator departs from pure rejection sampling (different coefficients for some indices)",
+                           "prng/fallback")
+    loops = [n for n in ast.walk(fi.node) if isinstance(n, (ast.While, ast.For))]
+    bounded = [n for n in loops if isinstance(n, ast.For) or (isinstance(n, ast.While) and norm(n.test) not in ("True", "1"))]
+    if bounded:
+        rule.violation(fi.loc(bounded[0]), fi.fq, norm(bounded[0])[:80].split(":")[0], "the number of draws is capped: indices whose first "
+                       "draws are all rejected get a different coefficient", "prng/bounded")
+    elif loops:
+        rule.ok(fi.loc(loops[0]), fi.fq, "while True: draw until accepted")
+
+
 def check(repo, rep, tier):
     rep.explanation = ("Provenance of the parameter-set key by module-level def-use; the parameter table is evaluated "
                        "with ast.literal_eval (literals only) and checked against the reader's index arithmetic and the "
@@ -366,3 +504,7 @@ def check(repo, rep, tier):
             r5.ok(where, fq, "iteration space `%s`" % itx, "public iteration space")
     r6 = rep.rule("R-C20-6", "subset-sum hash: active prime, coefficient i with bit i", floor=2)
     ggh(repo, r6)
+    r7 = rep.rule("R-C20-7", "sponge construction: blocks added to the rate part, capacity carried over, one permutation per block", floor=2)
+    sponge_absorb(repo, r7)
+    r8 = rep.rule("R-C20-8", "subset-sum coefficients come from pure rejection sampling", floor=2)
+    prng_rejection(repo, r8)
